@@ -11,7 +11,7 @@ from dissect.cobaltstrike.beacon import BeaconConfig, BeaconSetting, SETTING_TO_
 
 comp = Component("views-agree",
                  "random settings lists (0-12 settings; indices from all declared, aliased (16,17,36,48), unknown (75, 79, 4095, 65535); "
-                 "types 0-3 (settings that have a pretty-printer get the type it expects); lengths 0-40 with SHORT/INT values of 2/4 bytes; duplicates allowed) + terminator/padding/trailing bytes; "
+                 "types 0-3 (settings that have a pretty-printer get the type it expects); lengths 0-40, SHORT/INT values of 2/4 bytes and, for a fifth of them, non-canonical lengths 0-8; duplicates allowed) + terminator/padding/trailing bytes; "
                  "300 blocks quick / 20000 thorough, seed=VERIF_SEED")
 DECL = sorted({m.value for m in BeaconSetting})
 PRETTY = {k.value for k in SETTING_TO_PRETTYFUNC}
@@ -24,9 +24,9 @@ for _ in range(N):
         if idx in PRETTY:      # settings with a pretty-printer get the type their printer expects (well-formed configuration)
             ty = {16: 1, 19: 2, 36: rng.choice([1, 3])}.get(idx, 3)
         if ty == 1:
-            val = bytes(rng.randrange(256) for _ in range(2))
+            val = bytes(rng.randrange(256) for _ in range(2 if (idx in PRETTY or rng.random() < 0.8) else rng.choice([0, 1, 3, 4, 7])))
         elif ty == 2:
-            val = bytes(rng.randrange(256) for _ in range(4))
+            val = bytes(rng.randrange(256) for _ in range(4 if (idx in PRETTY or rng.random() < 0.8) else rng.choice([0, 1, 3, 5, 8])))
         else:
             val = bytes(rng.randrange(1, 256) for _ in range(rng.randrange(0, 41)))
         if idx == 9 and len(val) == 128:
@@ -47,7 +47,8 @@ for _ in range(N):
         # when the block has no terminator trailing bytes may start another (garbage) record: compare the prefix only
         ok = got[:len(want)] == want
         def val(t, v):
-            return int.from_bytes(v, "big") if t in (1, 2) else v
+            # SHORT / INT are exposed as the unsigned 16 / 32-bit integer in the first 2 / 4 value bytes
+            return int.from_bytes(v[:2], "big") if t == 1 else int.from_bytes(v[:4], "big") if t == 2 else v
         def name(i, t):
             if i == 36 and t == 1:
                 return "SETTING_INJECT_OPTIONS"
